@@ -88,6 +88,7 @@ lw.threading = _ThreadingShim()
 lw.SimpleQueue = thr.CoopQueue
 
 ID = "C19"
+CASE_TIMEOUT = 3600  # one case is a whole schedule exploration
 LEVEL = "model_checking"
 DETERMINISM_REPLAY = False  # engine verifies prefix replay and re-runs first/last schedule
 RULE = (
